@@ -14,7 +14,7 @@ from .common import set_interrupts, COMPONENTS_BASE, run_sim, new_sim, finish_ou
 
 PID = "C15"
 LEVEL = "exploration"
-BUDGET = {"quick": 30000, "thorough": 800000}
+BUDGET = {"quick": 250000, "thorough": 5000000}
 RULE = (
     "each run draws a manager kind (generator-based via contextmanager / class-based ContextDecorator), whether "
     "it suppresses, 1..3 caller tasks with 1..3 sequential calls each (body returns or raises), suspension counts "
